@@ -229,6 +229,42 @@ def variant_regions_encoder(b):
     return out
 
 
+def variant_paths_encoder(b):
+    """variant -> (None, blocks on the path the encoder takes for that address variant), by finite-configuration evaluation: every switch on the
+    discriminant of the address argument (Address: Domain / Socket; SocketAddr: V4 / V6) — also inside spliced helpers, which match on
+    the same argument again — is forced to the variant's arm. Independent of how many `match addr` the encoder is written with."""
+    from .common import simulate_cfg, switch_target
+    out = {}
+    cache = {}
+
+    def from_param(l):
+        if l not in cache:
+            cache[l] = 1 in b.slice_back([l], stop_call=lambda cc: cc.name not in ("Deref::deref", "AsRef::as_ref", "Clone::clone", "Borrow::borrow"))[0] or l == 1
+        return cache[l]
+    for v in ("Domain", "V4", "V6"):
+        def decide(blk, t, v=v):
+            p = op_place(t["d"])
+            if p is None:
+                return None
+            for d in b.defs().get(p[0], []):
+                if d[0] == "assign" and d[3]["rv"]["k"] == "discr":
+                    pl = d[3]["rv"]["p"]
+                    if not from_param(pl[0]):
+                        continue
+                    dc = [e[1] for e in pl[1] if e[0] == "downcast"]
+                    ty = b.local_ty(pl[0])
+                    if not dc and "Address" in ty and "SocketAddr" not in ty.split("Address")[0][-12:]:
+                        return switch_target(t, 0 if v == "Domain" else 1)      # Address::Domain = 0, Address::Socket = 1
+                    if (dc == ["Socket"]) or (not dc and "SocketAddr" in ty):
+                        if v == "Domain":
+                            return None
+                        return switch_target(t, 0 if v == "V4" else 1)          # SocketAddr::V4 = 0, V6 = 1
+            return None
+        seen = simulate_cfg(b, decide)
+        out[v] = (None, seen)
+    return out
+
+
 def variant_regions_decoder(b):
     """variant -> (arm blocks, prefix blocks): arms of the switch on the address type"""
     markers = {}
@@ -396,8 +432,12 @@ def e2_e3(ctx, prog, bodies):
         "vmess": {"enc": "protocol::vmess::address::write_address_port", "dec": "protocol::vmess::address::read_address_port", "len": []},
     }
     # find by role rather than by name: encoder = fn(&Address, &mut BytesMut) with put_* calls on 3 variant arms; decoder = fn returning Address reading get_*
-    encs = [b for b in bodies if b.root == b.defp and b.argc == 2 and "Address" in b.local_ty(1) and "BytesMut" in b.local_ty(2) and len(variant_regions_encoder(b)) == 3 and "put_u16" in {c.method for (_, c, _) in b.calls()}]
-    decs = [b for b in bodies if b.root == b.defp and b.argc == 1 and "Address" in b.local_ty(0) and len(variant_regions_decoder(b)[0]) == 3]
+    # judged on flat views: an encoder / decoder written as a pipeline of small helpers is the same encoder / decoder
+    encs = [prog.flat(b.defp) for b in bodies if b.root == b.defp and b.argc == 2 and "Address" in b.local_ty(1) and "BytesMut" in b.local_ty(2)]
+    encs = [b for b in encs if "put_u16" in {c.method for (_, c, _) in b.calls()} and "put_u8" in {c.method for (_, c, _) in b.calls()} and
+            any(s_["k"] == "assign" and s_["rv"]["k"] == "discr" for blk in b.rpo() for s_ in b.stmts(blk))]
+    decs = [prog.flat(b.defp) for b in bodies if b.root == b.defp and b.argc == 1 and "Address" in b.local_ty(0)]
+    decs = [b for b in decs if len(variant_regions_decoder(b)[0]) == 3]
     ctx.floor("E3", "address encoders", 2, len(encs))
     ctx.floor("E3", "address decoders", 2, len(decs))
     e5(ctx, prog, encs, decs)
@@ -408,7 +448,7 @@ def e2_e3(ctx, prog, bodies):
         if d:
             pairs.append((style, e, d[0]))
     for (style, e, d) in pairs:
-        er = variant_regions_encoder(e)
+        er = variant_paths_encoder(e)
         dr, prefix, sw = variant_regions_decoder(d)
         pre = seq_in(d, prefix)
         for v in ("Domain", "V4", "V6"):
@@ -498,7 +538,7 @@ def e2_e3(ctx, prog, bodies):
     sock_mod = None
     for (st, e_, d_) in pairs:
         if st == "socks5":
-            sock_mod = e_.defp.rsplit("::", 1)[0]
+            sock_mod = re.sub(r"(::\{impl#\d+\})+$", "", e_.defp.rsplit("::", 1)[0])
     for b in bodies:
         if b.root != b.defp or b.kind not in ("Fn", "AssocFn") or sock_mod is None or not b.defp.startswith(sock_mod + "::"):
             continue
@@ -510,7 +550,7 @@ def e2_e3(ctx, prog, bodies):
     sock = [p for p in pairs if p[0] == "socks5"]
     if sock:
         _, e, d = sock[0]
-        er = variant_regions_encoder(e)
+        er = variant_paths_encoder(e)
         want = {v: total(seq_in(e, er[v][1])) for v in er}
         for h0 in helpers:
             h = prog.flat(h0.defp)
@@ -542,6 +582,19 @@ def _type_byte(e, blocks):
                 ints = [c.get("int") for (_, c) in consts if c.get("int")]
                 if ints:
                     return max(ints)
+                # `put_u8(address_type(addr) as u8)`: the type enum's variant chosen on this variant's path
+                from .. import mir as _mir
+                locs, _, _ = e.slice_back([p[0]])
+                for b2 in e.rpo():
+                    if b2 not in blocks:
+                        continue
+                    for s2 in e.stmts(b2):
+                        if s2["k"] == "assign" and s2["p"][0] in locs and s2["rv"]["k"] == "agg" and s2["rv"].get("ak") == "adt" and not s2["rv"]["ops"]:
+                            for it in (_mir.CURRENT.items if _mir.CURRENT else []):
+                                if it["k"] == "enum" and it["path"] == s2["rv"].get("def"):
+                                    for v_ in it["variants"]:
+                                        if v_["name"] == s2["rv"].get("variant"):
+                                            return v_["discr"]
     return None
 
 
